@@ -1,6 +1,6 @@
 """Second tie for the GENERATOR bodies of the schedulers' run() loops (vlib/translate_gen.py, fail closed): for-loops over the
 class table that cross yields become structural fixes over the remaining table.  Used by props/part_mq.py (SP.run: C13;
-RR.run / WRR.run: C15), props/part_wfq.py (WFQ.run / VirtualClock.run: C14), props/part_drr.py (DRR.run: C15)."""
+RR.run / WRR.run: C15), props/part_wfq.py (WFQ.run / VC.run: C14), props/part_drr.py (DRR.run: C15)."""
 import os
 
 # ---- SP.run (C13): coq/Gen/Extracted_sp_run.v, bridged by coq/Elem/SPScanBridge.v, obligations Props/C13_BridgeRun.v --------
@@ -31,3 +31,21 @@ def extracted_sp_run(repo):
 def write_if_changed(coq_dir, name, text):
     from vlib import translate as tr
     return tr.write_if_changed(os.path.join(coq_dir, "Gen", name), text)
+
+
+# ---- VC.run (C14): coq/Gen/Extracted_vc_run.v, bridged by coq/Elem/VCRunBridge.v, obligations Props/C14_BridgeRun.v -
+SRV_REQ_CONS = [("RqStoreGet", ""),               # item = yield self.store.get()   (the PriorityStore)
+                ("RqChild", "")]                  # yield env.process(self.send_packet(packet))
+SRV_REQUESTS = [("self.store.get()", "RqStoreGet", [], "obj"),
+                ("env.process(self.send_packet(packet))", "RqChild", [], None),
+                ("self.env.process(self.send_packet(packet))", "RqChild", [], None)]
+SRV_FX = [("packet = item.item", "FxUnwrap", [])]              # the packet inside the PriorityItem the get returned
+SRV_FX_CONS = [("FxUnwrap", "")]
+
+
+def extracted_vc_run(repo):
+    from vlib import translate_gen as tg
+    spec = tg.GenSpec(os.path.join(repo, "onl", "scheduler", "virtual_clock.py"), "VC", "run", "gen_VC_run",
+                      effects=SRV_FX, requests=SRV_REQUESTS, objects=["item", "packet"], binds={"FxUnwrap": "packet"})
+    return tg.gen_run_module("onl/scheduler/virtual_clock.py: VC.run", spec, [], None, "", "vc_run_fx", SRV_FX_CONS,
+                             SRV_REQ_CONS, types="vc_run")
